@@ -221,6 +221,10 @@ func buildInputs(seed uint64, tier string) ([]input, error) {
 		layoutStream(b, r, docs, cfg.layoutBreaks)
 	}
 
+	// error tokens of every length class, value tables against value descriptions
+	errtokStream(b)
+	valtableStream(b, root.sub("valtable"), map[string]int{"quick": 60, "thorough": 4000}[tier])
+
 	// boundary code points and invalid UTF-8 bytes, enumerated
 	codepointStream(b, tier == "thorough")
 
